@@ -50,7 +50,22 @@ func init() {
 func locKey(u *url.URL) string {
 	// the path as written (an escaped slash is not a separator) and the query are part of what a location is
 	p := u.EscapedPath()
-	if p != "" {
+	if u.Scheme == "http" || u.Scheme == "https" {
+		// RFC 3986 5.2.4 removes dot segments and nothing else: a trailing slash and an empty segment are part of the path
+		var segs []string
+		for i, sg := range strings.Split(p, "/") {
+			switch {
+			case sg == "." && i > 0:
+			case sg == ".." && i > 0:
+				if len(segs) > 1 {
+					segs = segs[:len(segs)-1]
+				}
+			default:
+				segs = append(segs, sg)
+			}
+		}
+		p = strings.Join(segs, "/")
+	} else if p != "" {
 		p = path.Clean(p)
 	}
 	scheme := u.Scheme
@@ -237,6 +252,10 @@ func c11Forms() []c11form {
 		{"https-url", fragAt("https://example.invalid/specs/other.json", "https://example.invalid|/specs/other.json")},
 		{"https-url-with-query", fragAt("https://example.invalid/registry?name=pet&v=2", "https://example.invalid|/registry?name=pet&v=2")},
 		{"https-url-with-escaped-slash", fragAt("https://example.invalid/specs/team%2Fpets.json", "https://example.invalid|/specs/team%2Fpets.json")},
+		// paths that path cleaning would alter (RFC 3986 resolution keeps a trailing slash and an empty segment)
+		{"https-url-trailing-slash", fragAt("https://example.invalid/defs/", "https://example.invalid|/defs/")},
+		{"https-url-empty-segment", fragAt("https://example.invalid/specs//other.json", "https://example.invalid|/specs//other.json")},
+		{"https-url-trailing-slash-2", fragAt("https://example.invalid/registry/v1/", "https://example.invalid|/registry/v1/")},
 		{"whole-file", func(kind, coll, marker string) (string, map[string]string) {
 			return "objs/t.json", map[string]string{"://|w/objs/t.json": mustJSON(targetObject(kind, marker))}
 		}},
@@ -483,6 +502,11 @@ func c11CaseAt(c *core.Ctx, name, rootLocation, rootDoc string, files map[string
 			l := openapi3.NewLoader()
 			l.IsExternalRefsAllowed = allowed
 			l.ReadFromURIFunc = func(_ *openapi3.Loader, u *url.URL) ([]byte, error) { return rd.serve(u) }
+			if len(name)%2 == 0 {
+				// the caller's reader behind the library's own cache wrapper: what reaches the reader is still the resolved location
+				l.ReadFromURIFunc = openapi3.URIMapCache(l.ReadFromURIFunc)
+				c.Cover("reader", "wrapped in URIMapCache")
+			}
 			var err error
 			c.Eval()
 			pi := core.Guard(func() { _, err = e.load(l) })
@@ -583,16 +607,22 @@ func c11Strace(c *core.Ctx) {
 		refs map[string]string // schema name -> ref
 		// files (relative to dir) that may be opened when references are allowed
 		mayOpen []string
+		// file name of the root (default root-<name>.json) and a decoy that a URL reading of that name would hit
+		rootName, decoy string
 	}{
-		{"relative", map[string]string{"A": "other.json#/components/schemas/T"}, []string{"tree/other.json"}},
-		{"chain", map[string]string{"A": "sub/second.json#/components/schemas/T"}, []string{"tree/sub/second.json", "tree/other.json"}},
-		{"escape", map[string]string{"A": "../escape/canary-up.json#/components/schemas/T"}, []string{"escape/canary-up.json"}},
-		{"absolute", map[string]string{"A": canaryAbs + "#/components/schemas/T"}, []string{"elsewhere/canary-abs.json"}},
-		{"file-url", map[string]string{"A": "file://" + canaryAbs + "#/components/schemas/T"}, []string{"elsewhere/canary-abs.json"}},
-		{"http", map[string]string{"A": "http://127.0.0.1:9/x.json#/components/schemas/T"}, nil},
+		{"relative", map[string]string{"A": "other.json#/components/schemas/T"}, []string{"tree/other.json"}, "", ""},
+		{"chain", map[string]string{"A": "sub/second.json#/components/schemas/T"}, []string{"tree/sub/second.json", "tree/other.json"}, "", ""},
+		{"escape", map[string]string{"A": "../escape/canary-up.json#/components/schemas/T"}, []string{"escape/canary-up.json"}, "", ""},
+		{"absolute", map[string]string{"A": canaryAbs + "#/components/schemas/T"}, []string{"elsewhere/canary-abs.json"}, "", ""},
+		{"file-url", map[string]string{"A": "file://" + canaryAbs + "#/components/schemas/T"}, []string{"elsewhere/canary-abs.json"}, "", ""},
+		{"http", map[string]string{"A": "http://127.0.0.1:9/x.json#/components/schemas/T"}, nil, "", ""},
 		// a scheme-relative reference names another host: the local file of the same path is not that location
-		{"scheme-relative", map[string]string{"A": "//files.invalid" + canaryAbs + "#/components/schemas/T"}, nil},
-		{"internal-only", map[string]string{"A": "#/components/schemas/B"}, nil},
+		{"scheme-relative", map[string]string{"A": "//files.invalid" + canaryAbs + "#/components/schemas/T"}, nil, "", ""},
+		{"internal-only", map[string]string{"A": "#/components/schemas/B"}, nil, "", ""},
+		// LoadFromFile takes a file NAME: characters that mean something in a URL are part of the name
+		{"root-name-with-percent", map[string]string{"A": "#/components/schemas/B"}, nil, "api%20v1.json", "api v1.json"},
+		{"root-name-with-hash", map[string]string{"A": "#/components/schemas/B"}, nil, "api.json#draft", "api.json"},
+		{"root-name-with-question-mark", map[string]string{"A": "#/components/schemas/B"}, nil, "api2.json?rev=3", "api2.json"},
 	}
 	for _, cs := range cases {
 		root := refRootSkeleton()
@@ -602,7 +632,12 @@ func c11Strace(c *core.Ctx) {
 		}
 		// fields that are not references but name files
 		dig(root, "components", "schemas")["Pet"] = gen.S{"oneOf": gen.Arr(gen.S{"$ref": "#/components/schemas/B"}), "discriminator": gen.S{"propertyName": "k", "mapping": gen.S{"a": "unreferenced.json#/components/schemas/T"}}}
-		rootFile := write("tree/root-"+cs.name+".json", mustJSON(root))
+		rootRel := "tree/root-" + cs.name + ".json"
+		if cs.rootName != "" {
+			rootRel = "tree/" + cs.rootName
+			write("tree/"+cs.decoy, lib) // another document: reading it instead of the root is reading something else
+		}
+		rootFile := write(rootRel, mustJSON(root))
 		for _, mode := range []string{"false", "true", "handler"} {
 			allowed := mode == "true"
 			logf := filepath.Join(dir, fmt.Sprintf("strace-%s-%v.log", cs.name, mode))
@@ -634,7 +669,7 @@ func c11Strace(c *core.Ctx) {
 			}
 			inet := reConnect.FindAllString(string(b), -1)
 			c.Count("strace_openat_in_tree", int64(len(opened)))
-			legal := map[string]bool{"tree/root-" + cs.name + ".json": true, "tree": true}
+			legal := map[string]bool{rootRel: true, "tree": true}
 			if allowed {
 				for _, f := range cs.mayOpen {
 					legal[f] = true
